@@ -160,8 +160,8 @@ package types
 //@ func types.(*NodeCredentials).CreateFetchNodeCredentialsRequest
 //@   ensures[C03 failclosed] err != nil ==> ret == nil
 //@   ensures[C03 window] err == nil ==> ret != nil
-//@   |   && decField("types.FetchNodeCredentialsInfo", "NotBefore", ret.Bundle) == now(0)
-//@   |   && decField("types.FetchNodeCredentialsInfo", "NotAfter", ret.Bundle) == now(0) + DefaultFetchCredentialsLifetime
+//@   |   && now(0) <= decField("types.FetchNodeCredentialsInfo", "NotBefore", ret.Bundle) && decField("types.FetchNodeCredentialsInfo", "NotBefore", ret.Bundle) <= now(last)
+//@   |   && decField("types.FetchNodeCredentialsInfo", "NotAfter", ret.Bundle) == decField("types.FetchNodeCredentialsInfo", "NotBefore", ret.Bundle) + DefaultFetchCredentialsLifetime
 //@   ensures[C03 signed] err == nil ==> Verify(edpub(unpkcs8(n.CertificatePrivateKeyPkcs8)), ret.Bundle, ret.BundleSignature)
 //@   ensures[C03 fields] err == nil ==>
 //@   |   decField("types.FetchNodeCredentialsInfo", "CertificatePublicKeyPkix", ret.Bundle) == bytes(n.CertificatePublicKeyPkix)
